@@ -170,3 +170,12 @@ def r5_per_layer_effect(run, tree):
 
 
 RULES = [r1_immutability, r2_precedence, r3_hidden_state, r4_no_bypass, r5_per_layer_effect]
+
+
+def t_map_space(run, tree):
+    run.rule("C19.T1", "thorough: the per-layer effect of the reduction operation in map() over every ordered pair of layer operations, thin and thick", "D7 fold of plot/map.py::map", "", floor=50)
+    from . import map_folds as mf
+    mf.check_map(run, tree, aspects=("rendered", "inputs"), scenarios=mf.thorough_scenarios())
+
+
+THOROUGH_RULES = [t_map_space]
